@@ -425,3 +425,109 @@ Proof.
       { exists rk. split; [eapply nth_error_In; eauto|exact Ht]. }
       apply (first_true_some_iff _ 0) in Hex. destruct Hex as [m Hm]. congruence.
 Qed.
+
+(* ================================================================== invariance (C13) *)
+Lemma flat_map_perm_pw {A B} (g g' : A -> list B) l :
+  (forall x, Permutation (g x) (g' x)) -> Permutation (flat_map g l) (flat_map g' l).
+Proof. intros H. induction l as [|x t IH]; cbn; [constructor|]. apply Permutation_app; [apply H|exact IH]. Qed.
+
+Lemma cross_perm {A} (L L' R R' : list A) :
+  Permutation L L' -> Permutation R R' -> Permutation (cross L R) (cross L' R').
+Proof.
+  intros HL HR. unfold cross. eapply perm_trans.
+  - apply flat_map_perm. exact HL.
+  - apply flat_map_perm_pw. intros x. apply Permutation_map. exact HR.
+Qed.
+
+Lemma post_filter_count_perm {rec} (adm : rec -> rec -> bool) rule L L' R R' :
+  Permutation L L' -> Permutation R R' -> post_filter_count adm rule L R = post_filter_count adm rule L' R'.
+Proof.
+  intros HL HR. unfold post_filter_count, lenZ.
+  rewrite (Permutation_length (filter_perm _ _ _ (cross_perm _ _ _ _ HL HR))). reflexivity.
+Qed.
+Lemma pre_filter_count_perm {rec} (keyL keyR : rec -> option (list Z)) L L' R R' :
+  Permutation L L' -> Permutation R R' -> pre_filter_count keyL keyR L R = pre_filter_count keyL keyR L' R'.
+Proof.
+  intros HL HR. rewrite !pre_filter_is_equijoin_count. apply countZ_perm. apply cross_perm; assumption.
+Qed.
+Lemma row_counts_perm {rec} (adm : rec -> rec -> bool) (rules : list (rec -> rec -> tv)) L L' R R' n :
+  rules <> [] -> (n < length rules)%nat -> Permutation L L' -> Permutation R R' ->
+  nth n (row_counts (length rules) (block adm rules L R)) 0
+  = nth n (row_counts (length rules) (block adm rules L' R')) 0.
+Proof.
+  intros Hne Hn HL HR. rewrite !row_counts_nth by assumption. apply countZ_perm. apply cross_perm; assumption.
+Qed.
+
+Lemma some_keys_perm {rec} (key : rec -> option (list Z)) T T' :
+  Permutation T T' -> Permutation (some_keys key T) (some_keys key T').
+Proof. apply flat_map_perm. Qed.
+Lemma eqk_lex_eq' a b : eqk lex_leb a b = true -> a = b.
+Proof. apply eqk_lex. Qed.
+Lemma key_groups_perm {rec} (key : rec -> option (list Z)) T T' :
+  Permutation T T' -> key_groups key T = key_groups key T'.
+Proof.
+  intros H. pose proof (some_keys_perm key _ _ H) as Hk. unfold key_groups.
+  rewrite (group_keys_perm idL lex_leb lex_total lex_trans eqk_lex_eq' _ _ Hk).
+  apply map_ext. intros k. f_equal. unfold lenZ.
+  rewrite (Permutation_length (members_perm idL lex_leb _ _ k Hk)). reflexivity.
+Qed.
+Lemma block_counts_perm {rec} (keyL keyR : rec -> option (list Z)) L L' R R' :
+  Permutation L L' -> Permutation R R' -> block_counts keyL keyR L R = block_counts keyL keyR L' R'.
+Proof. intros HL HR. unfold block_counts. rewrite (key_groups_perm keyL _ _ HL), (key_groups_perm keyR _ _ HR). reflexivity. Qed.
+Lemma n_largest_perm {rec} n (keyL keyR : rec -> option (list Z)) L L' R R' :
+  Permutation L L' -> Permutation R R' -> n_largest_blocks n keyL keyR L R = n_largest_blocks n keyL keyR L' R'.
+Proof. intros HL HR. unfold n_largest_blocks. rewrite (block_counts_perm keyL keyR _ _ _ _ HL HR). reflexivity. Qed.
+Lemma cartesian_perm lt ns ns' : Permutation ns ns' -> cartesian lt ns = cartesian lt ns' \/ lt = CDedupe.
+Proof.
+  intros H. destruct lt; [right; reflexivity|left|left]; unfold cartesian.
+  - rewrite (Permutation_length H), (sumZ_perm _ _ H), (sumZ_perm _ _ (Permutation_map (fun m => m * m) H)). reflexivity.
+  - rewrite (sumZ_perm _ _ H). reflexivity.
+Qed.
+
+(* relabelling of the records by any map phi along which admissibility, rule outcomes and keys
+   are transported (for ids: an order-preserving injective renaming) *)
+Lemma cross_map {A B} (phi : A -> B) L R :
+  cross (map phi L) (map phi R) = map (fun p => (phi (fst p), phi (snd p))) (cross L R).
+Proof.
+  unfold cross. induction L as [|l t IH]; [reflexivity|]. cbn [map flat_map]. rewrite map_app, IH. f_equal.
+  rewrite !map_map. reflexivity.
+Qed.
+Lemma countZ_map {A B} (q : B -> bool) (g : A -> B) l : countZ q (map g l) = countZ (fun x => q (g x)) l.
+Proof. unfold countZ. rewrite filter_map_swap, map_length. reflexivity. Qed.
+
+Lemma post_filter_count_relabel {rec rec'} (phi : rec -> rec') adm adm' rule rule' L R :
+  (forall a b, adm' (phi a) (phi b) = adm a b) -> (forall a b, rule' (phi a) (phi b) = rule a b) ->
+  post_filter_count adm' rule' (map phi L) (map phi R) = post_filter_count adm rule L R.
+Proof.
+  intros Ha Hr. unfold post_filter_count. rewrite cross_map.
+  change (lenZ (filter ?p ?l)) with (countZ p l). rewrite countZ_map. cbn [fst snd].
+  unfold countZ. f_equal. f_equal. apply filter_ext. intros p. rewrite Ha, Hr. reflexivity.
+Qed.
+Lemma pre_filter_count_relabel {rec rec'} (phi : rec -> rec') keyL keyR keyL' keyR' L R :
+  (forall a, keyL' (phi a) = keyL a) -> (forall a, keyR' (phi a) = keyR a) ->
+  pre_filter_count keyL' keyR' (map phi L) (map phi R) = pre_filter_count keyL keyR L R.
+Proof.
+  intros HL HR. rewrite !pre_filter_is_equijoin_count, cross_map, countZ_map. cbn [fst snd].
+  unfold countZ. f_equal. f_equal. apply filter_ext. intros p. rewrite HL, HR. reflexivity.
+Qed.
+Lemma first_true_relabel {rec rec'} (phi : rec -> rec') (rules : list (rec -> rec -> tv)) (rules' : list (rec' -> rec' -> tv)) :
+  Forall2 (fun r r' => forall a b, r' (phi a) (phi b) = r a b) rules rules' ->
+  forall k a b, first_true k rules' (phi a) (phi b) = first_true k rules a b.
+Proof.
+  induction 1 as [|r r' t t' Hr Ht IH]; intros k a b; cbn [first_true]; [reflexivity|].
+  rewrite Hr, IH. reflexivity.
+Qed.
+Lemma row_counts_relabel {rec rec'} (phi : rec -> rec') adm adm' rules rules' L R n :
+  rules <> [] -> (n < length rules)%nat ->
+  (forall a b, adm' (phi a) (phi b) = adm a b) ->
+  Forall2 (fun r r' => forall a b, r' (phi a) (phi b) = r a b) rules rules' ->
+  nth n (row_counts (length rules') (block adm' rules' (map phi L) (map phi R))) 0
+  = nth n (row_counts (length rules) (block adm rules L R)) 0.
+Proof.
+  intros Hne Hn Ha HF.
+  assert (Hlen : length rules = length rules') by (clear -HF; induction HF; cbn; congruence).
+  assert (Hne' : rules' <> []) by (destruct rules'; [destruct rules; [congruence|discriminate]|discriminate]).
+  rewrite !row_counts_nth by (try assumption; rewrite <- Hlen; exact Hn).
+  rewrite cross_map, countZ_map. cbn [fst snd]. unfold countZ. f_equal. f_equal. apply filter_ext. intros p.
+  rewrite Ha. unfold owner_is. rewrite (first_true_relabel phi rules rules' HF). reflexivity.
+Qed.
